@@ -46,6 +46,12 @@ def discover(m, er=None):
         raise AnalysisError("role REWRITE: expected one function below the registry application that removes edges")
     r.rewrite = r.rewrite[0]
     r.bound_run = m.method("BoundCall", "run", "BOUNDCALL")
+    # the observer variable of run: the local assigned from `<progress>.observer()`
+    ov = [nm for nm, bs in r.run.bindings.items() for k, e, p_ in bs if k == "assign" and isinstance(e, ast.Call)
+          and isinstance(e.func, ast.Attribute) and e.func.attr == "observer"]
+    if len(ov) != 1:
+        raise AnalysisError("role OBSERVER: run must create exactly one observer via <progress>.observer()")
+    r.observer_var = ov[0]
     # closures of the stale callback chain
     r.stale_closures = [f for f in m.reachable([r.stalecb], kinds=("call",)) if f.parent is r.stale]
     return r
@@ -604,7 +610,7 @@ def rule_observer_exit(ctx, rid, r):
     ctx.ob(rid, f"{f.short}/unconditional", ok, loc(f), "unconditional" if ok else "conditional logic in __exit__")
     # run holds the observer in exactly one with
     run = r.run
-    ws = [n for n in run.own_nodes() if isinstance(n, ast.With) and any(norm(it.context_expr) == "progress_observer" for it in n.items)]
+    ws = [n for n in run.own_nodes() if isinstance(n, ast.With) and any(norm(it.context_expr) == r.observer_var for it in n.items)]
     ctx.ob(rid, f"{run.short}/observer-with", len(ws) == 1, loc(run), "run enters the observer with one with-statement" if len(ws) == 1
            else f"{len(ws)} with-statements on the observer")
 
